@@ -719,6 +719,12 @@ func execC(p *part, in *caseIn) {
 		p.Count("C_direct_fallback_blocked", hook.other)
 	case cp == nil:
 		p.Count("C_rejected", 1)
+		if hook.other > 0 {
+			// runsc is available (the lookup hook answered), the request never reached it -
+			// and yet a worker command was started directly on the host: a rejected request
+			// must not be run at all, let alone outside the sandbox
+			p.Violate("e2e/rejected-request-ran-unsandboxed", fmt.Sprintf("SandboxExec->Run did not reach runsc for this request (err=%v) but started %d command(s) directly on the host", errStr(rerr), hook.other), rp)
+		}
 		if resAbs != "" {
 			p.Count("C_reserved_rejected", 1)
 			outcome = "rej-reserved"
